@@ -59,9 +59,19 @@ func checkC16(p *Prog, r *Report) {
 	type pair struct{ from, to string }
 	var goPairs []pair
 	var enc *ssa.Call
+	/* Only what is done to the text on its way into the template counts: a
+	check which undoes the substitutions to compare (and throws the result
+	away) is not part of what the shell function is made of. */
+	feeds := templateFeed(fp)
 	eachInstr(fp, func(i ssa.Instruction) {
 		c, ok := i.(*ssa.Call)
 		if !ok {
+			return
+		}
+		if nil != feeds && !feeds[c] {
+			if sc := c.Common().StaticCallee(); nil != sc && "AppendEncode" == sc.Name() {
+				enc = c
+			}
 			return
 		}
 		switch calleeName(c.Common()) {
@@ -460,6 +470,18 @@ func checkCleanPerl(p *Prog, ru *Rule, cp *ssa.Function) {
 		case *ssa.Slice:
 			if copiedOnly(x) {
 				continue /* a copy of part of the lines, e.g. for the lead comments */
+			}
+			/* A window onto the leading comment run, lines[:n], which is
+			read and then blanked as a whole with clear(): the same
+			lines[i] = "" for i < n. */
+			if nil == x.Low && nil != x.High && nil == x.Max && boundIsCommentRun(split, x.High) {
+				if cleared, ok := commentWindowUses(x, map[ssa.Value]bool{}); ok {
+					if cleared > 0 {
+						nst += cleared
+						ru.OK(c+":leading-run-only", posOf(x), "clear(lines[:n]) with n the length of the leading run of comment lines: exactly those lines are blanked")
+					}
+					continue
+				}
 			}
 			bad++
 			ru.Bad(c+":reslice", posOf(x), "the line slice is re-sliced: lines are dropped from the program text (or its line numbers shift)")
@@ -1258,4 +1280,128 @@ func inPlaceBytePairs(fn *ssa.Function) [][2]int64 {
 		return nil
 	}
 	return out
+}
+
+// templateFeed: the values from which the data handed to the template's
+// Execute in fn is computed (operands of operands; what was put into the map
+// or struct passed; what was stored into the locals read).  nil when no
+// Execute call is found.
+func templateFeed(fn *ssa.Function) map[ssa.Value]bool {
+	var data ssa.Value
+	eachInstr(fn, func(i ssa.Instruction) {
+		if c, ok := i.(*ssa.Call); ok && strings.HasSuffix(calleeName(c.Common()), "template.Template).Execute") && 3 == len(c.Common().Args) {
+			data = c.Common().Args[2]
+		}
+	})
+	if nil == data {
+		return nil
+	}
+	seen := map[ssa.Value]bool{}
+	var walk func(v ssa.Value)
+	walk = func(v ssa.Value) {
+		v = resolveFree(v)
+		if nil == v || seen[v] {
+			return
+		}
+		seen[v] = true
+		switch x := v.(type) {
+		case *ssa.MakeMap:
+			for _, ref := range *x.Referrers() {
+				if mu, ok := ref.(*ssa.MapUpdate); ok && mu.Map == ssa.Value(x) {
+					walk(mu.Value)
+				}
+			}
+		case *ssa.Alloc:
+			for _, ref := range *x.Referrers() {
+				switch y := ref.(type) {
+				case *ssa.Store:
+					if y.Addr == ssa.Value(x) {
+						walk(y.Val)
+					}
+				case *ssa.FieldAddr:
+					for _, r2 := range *y.Referrers() {
+						if st, ok := r2.(*ssa.Store); ok && st.Addr == ssa.Value(y) {
+							walk(st.Val)
+						}
+					}
+				case *ssa.IndexAddr:
+					for _, r2 := range *y.Referrers() {
+						if st, ok := r2.(*ssa.Store); ok && st.Addr == ssa.Value(y) {
+							walk(st.Val)
+						}
+					}
+				}
+			}
+		}
+		if i, ok := v.(ssa.Instruction); ok {
+			var ops []*ssa.Value
+			for _, o := range i.Operands(ops) {
+				if nil != *o {
+					walk(*o)
+				}
+			}
+		}
+	}
+	walk(data)
+	return seen
+}
+
+// commentWindowUses: every use of the window w (and of the windows cut from
+// it without a new upper bound, and of the variables they are merged into)
+// reads it — len, an element load, strings.Join, slices.Clone — or clears it
+// with the builtin.  Returns the number of clear calls.
+func commentWindowUses(w ssa.Value, seen map[ssa.Value]bool) (int, bool) {
+	if seen[w] {
+		return 0, true
+	}
+	seen[w] = true
+	n := 0
+	for _, ref := range *w.Referrers() {
+		switch r := ref.(type) {
+		case *ssa.DebugRef:
+		case *ssa.Call:
+			if bi, isB := r.Common().Value.(*ssa.Builtin); isB {
+				switch bi.Name() {
+				case "len":
+					continue
+				case "clear":
+					n++
+					continue
+				}
+				return 0, false
+			}
+			switch name := calleeName(r.Common()); {
+			case "strings.Join" == name, "slices.Clone" == name, strings.HasPrefix(name, "slices.Clone["):
+				continue
+			}
+			return 0, false
+		case *ssa.IndexAddr:
+			for _, r2 := range *r.Referrers() {
+				if st, isSt := r2.(*ssa.Store); isSt && st.Addr == ssa.Value(r) {
+					if s, ok := constString(st.Val); !ok || "" != s {
+						return 0, false
+					}
+					n++
+				}
+			}
+		case *ssa.Slice:
+			if nil != r.High || nil != r.Max || r.X != w {
+				return 0, false
+			}
+			k, ok := commentWindowUses(r, seen)
+			if !ok {
+				return 0, false
+			}
+			n += k
+		case *ssa.Phi:
+			k, ok := commentWindowUses(r, seen)
+			if !ok {
+				return 0, false
+			}
+			n += k
+		default:
+			return 0, false
+		}
+	}
+	return n, true
 }
